@@ -2,7 +2,7 @@
 import re
 
 from lib_facts import place_str, fn_name
-from lib_flow import strip_refs, expr_calls, expr_str, variant_facts, must_pass_flags, first_entries
+from lib_flow import strip_refs, expr_calls, expr_str, variant_facts, must_pass_flags, first_entries, only_via
 from roles import roles, direct_sites, callee_body
 from c01 import _site_label, d_loc, group_loop_fns
 
@@ -127,6 +127,16 @@ def r18_1(ctx, R, memo):
     ctx.ob("R18.1", "<crate>", "table-is-live(constructor allocates)", ctor is not None and may_alloc(ctx, ctor, memo) is not None, "", "")
 
 
+def _field_ty(ctx, b, fname):
+    """Type of field `fname` of the struct whose method b is."""
+    for path, adt in ctx.facts.adts.items():
+        if adt["kind"] == "struct" and (b.path.startswith(path + "::") or b.path.startswith("<" + path)):
+            for f in adt["variants"][0]["fields"]:
+                if f["name"] == fname:
+                    return f["ty"]
+    return None
+
+
 def r18_2(ctx, R, memo):
     ctx.rule("R18.2", "unbounded family: in push every allocating site is dominated by the None arm of last_mut or the Err "
                       "edge of try_push(last); new capacity = capacity(last) * c, c >= 2, or the minimum-capacity constant; "
@@ -148,10 +158,40 @@ def r18_2(ctx, R, memo):
             cb = callee_body(ctx.facts, fn)
             if cb is not None and not b.is_cleanup(bb) and may_alloc(ctx, cb, memo):
                 sites.append((bb, cb.path, "crate callee that may allocate"))
+        try_bbs = {bb for bb, _ in tries}
+        last_bbs = {bb for bb, _ in lasts} | {bb for bb, t, fn in direct_sites(b, r"core::slice::<impl \[T\]>::last$")}
+
+        def is_groups_vec(x):
+            x = strip_refs(x)
+            return x[0] == "proj" and strip_refs(x[1])[0] == "param" and x[2] and x[2][-1].startswith(".") and \
+                re.search(r"Vec<(futures_unordered_bounded::FuturesUnorderedBounded|merge_bounded::MergeBounded)<", _field_ty(ctx, b, x[2][-1][1:]) or "") is not None
+
+        def no_group_edge(lab):
+            x = lab[1]
+            if lab[0] == "variant" and lab[2] == "None" or lab[0] == "notvariants" and "Some" in lab[2]:
+                return x[0] == "call" and x[3] in last_bbs
+            if lab[0] == "bool" and x[0] == "call" and re.search(r"Vec::<.*>::is_empty$|core::slice::<impl \[T\]>::is_empty$", x[1] or "") and lab[2] is True:
+                return is_groups_vec(x[2][0]) or any(is_groups_vec(c_[2][0]) for c_ in expr_calls(x[2][0]) if c_[2])
+            if lab[0] == "bool" and x[0] == "binop" and ((x[1] == "Eq" and lab[2] is True) or (x[1] == "Ne" and lab[2] is False)):
+                for l_, r_ in ((x[2], x[3]), (x[3], x[2])):
+                    if r_[0] == "const" and r_[2] == "0" and l_[0] == "call" and re.search(r"Vec::<.*>::len$", l_[1] or "") and is_groups_vec(l_[2][0]):
+                        return True
+            return False
+
+        def refused_edge(lab):
+            x = lab[1]
+            if lab[0] == "variant" and lab[2] == "Err" or lab[0] == "notvariants" and "Ok" in lab[2]:
+                return x[0] == "call" and x[3] in try_bbs
+            if lab[0] == "bool" and x[0] == "call" and x[2] and (((x[1] or "").endswith("::is_err") and lab[2] is True) or ((x[1] or "").endswith("::is_ok") and lab[2] is False)):
+                y = strip_refs(x[2][0])
+                return y[0] == "call" and y[3] in try_bbs
+            return False
+        reg_none = only_via(b, fl, no_group_edge)
+        reg_err = only_via(b, fl, refused_edge)
         for bb, callee, why in sites:
             fs = vf.get(bb, frozenset())
-            no_group = any((d, "None") in fs for _, d in lasts)
-            last_full = any((d, "Err") in fs for _, d in tries)
+            no_group = any((d, "None") in fs for _, d in lasts) or bb in reg_none
+            last_full = any((d, "Err") in fs for _, d in tries) or bb in reg_err
             ctx.ob("R18.2", b, "alloc-only-on-growth@%s" % _site_label(b, bb), no_group or last_full, b.loc(bb),
                    "%s (%s); behind 'no group yet': %s, behind 'last group refused': %s" % (callee.split("::")[-1], why, no_group, last_full))
         # capacities of fresh groups
